@@ -96,6 +96,16 @@ CHECKS = {
          "Every entry of the SQL keyword/fingerprint table, black tags, attributes, events and the hex map is checked for well-formedness and for reachability through the real look-up code (upper and lower-case probe, blacklist test, tag/attribute predicates, lexer class of single-word keys); every entry of the pinned baseline snapshot must be present with the same classification. Finite, exhaustive in both tiers.",
          "Baseline snapshot /verif/baseline/tables.json was dumped once from the pinned tree through the accessors.",
          "4 C20"),
+ "C05": ("model_checking",
+         "explicit-state closure over call histories (state = digest of all package-level state, fixpoint) + stateless schedule exploration of the auto-instrumented implementation under a cooperative scheduler with iterative preemption bounding and a happens-before race monitor",
+         "E-HIST: from every reachable package state (digest of everything reachable from every package-level variable incl. pooled objects) each of 48 colliding IsSQLi/IsXSS operations is applied to the real code and compared with the fresh-process reference and the reference models; on the unchanged tree the closure is one state, which by induction covers every history. E-SCHED: every interleaving of 2 concurrent calls (78 input pairs; 2x2 calls; 3 threads in thorough) within the preemption bound, at scheduling points inserted by vinstr at every package-level variable access, sync/atomic/pool operation and (per config) function entry / loop iteration, checked for result = sequential reference, data races (vector clocks), deadlock, panics; every failing schedule is replayed and must reproduce. A free-running `go test -race` pass over the same bodies is auxiliary.",
+         "Sequentially consistent, preemption-bounded (bound 2; statement-level configs bound 1-2 in thorough, caps reported). State reachable only through closures/unsafe is outside the digest. Instrumentation is generated from /repo's working tree at check time.",
+         "4 C05"),
+ "C09": ("model_checking",
+         "exhaustive enumeration of repetition families on the auto-instrumented implementation with a deterministic work counter (cost model), growth-ratio and per-byte budget oracles",
+         "Every family opener + unit^k for every unit of length <=2 (<=3 thorough) over the state-changing SQL / HTML symbols x 8 openers is run at 4 KB, 16 KB and 64 KB on the instrumented build; the deterministic work count (loop iterations + function entries + bytes scanned by strings/bytes calls + concatenation/conversion sizes) must grow by at most 6x per 4x length (linear 4, quadratic 16) and stay under 2000 units per byte, enforced as a budget. Decided by exact integers, identical on every run; wall-clock only recorded.",
+         "Real time <= c * work holds for all statements except costs hidden inside == on long strings and strings.Builder internals (stated in the evidence). Families outside the enumerated units are not covered.",
+         "4 C09"),
 }
 
 NOT_YET = {
